@@ -330,3 +330,10 @@ def _guarded_by_presence(fn, bb, op):
                 if edge_dominates(fn, (a, s), bb):
                     return True
     return False
+
+
+
+def site_key(fn, s):
+    """ledger key of a panic-capable site: function | kind | operand descriptor, with closure ordinals removed
+    (they shift when an unrelated closure is added to or removed from the enclosing function)"""
+    return re.sub(r"\{closure#\d+\}", "{closure}", "%s|%s|%s" % (fn.name, s["kind"], descriptor(fn, s)))
